@@ -110,7 +110,11 @@ func c40(r *vkit.Run) {
 			r.Inconclusive(fmt.Sprintf("cannot load replay: %v", err))
 			return
 		}
-		for i := 0; i < 20 && r.Violations() == 0; i++ { // schedules differ: try a few times
+		attempts := 20 // schedules differ: try a few times
+		if w.Spec.Kind == "reset-reading" {
+			attempts = 300 // short connections whose point is a window of a few microseconds in the serve goroutine
+		}
+		for i := 0; i < attempts && r.Violations() == 0; i++ {
 			res := runCase(w.Spec)
 			c40Report(r, w.Spec, res)
 		}
